@@ -80,3 +80,382 @@ def gen_codec(rng, tier):
         lines.append('cmp %s %s' % (hx(k), hx(k2)))
     lines.append('crc ' + hx(rand_bytes(rng, rng.randrange(0, 30))))
     return lines
+
+
+# ------------------------------------------------------------------------------------------------
+# node table / node list (C20)
+# ------------------------------------------------------------------------------------------------
+
+def gen_table(rng, tier):
+    lines = ['hash ' + rng.choice(('const', 'mod2', 'mod3', 'mod7', 'id'))]
+    nkeys = rng.choice((2, 3, 4, 6, 10))
+    nptr = 0
+    ptr_key = {}
+    n = rng.randrange(5, 60 if tier == 'quick' else 200)
+    for _ in range(n):
+        r = rng.random()
+        k = rng.randrange(nkeys)
+        if r < 0.45:
+            if ptr_key and rng.random() < 0.2:
+                p = rng.choice([p for p in ptr_key])       # re-use an old pointer (maybe wrong key -> bad-op)
+                k = ptr_key[p] if rng.random() < 0.9 else k
+            else:
+                nptr += 1
+                p = nptr
+                ptr_key[p] = k
+                lines.append('ptr %d %d' % (p, k))
+            lines.append('update %d %d' % (k, p))
+        elif r < 0.7:
+            lines.append('remove %d' % k)
+        elif r < 0.9:
+            lines.append('get %d' % k)
+        elif r < 0.95:
+            lines.append('count')
+        else:
+            lines.append('stats')
+    lines += ['count', 'stats'] + ['get %d' % k for k in range(nkeys)]
+    return lines
+
+
+def gen_nodelist(rng, tier):
+    lines = []
+    keys = [rand_bytes(rng, rng.randrange(0, 4)) for _ in range(rng.choice((1, 2, 3, 5)))]
+    nid = 0
+    for _ in range(rng.randrange(3, 40)):
+        r = rng.random()
+        if r < 0.5:
+            nid += 1
+            lines.append('add %d %s' % (nid, hx(rng.choice(keys))))
+        elif r < 0.8:
+            k = rng.choice(keys) if rng.random() < 0.9 else rand_bytes(rng, 2)
+            lines.append('remove ' + hx(k))
+        elif r < 0.9:
+            lines.append('keys')
+        else:
+            lines.append('head')
+    lines += ['keys', 'head']
+    return lines
+
+
+# ------------------------------------------------------------------------------------------------
+# MVCC sequential histories (C01 C02 C06 C09 C10, also C05/C07 through store/load/shutdown)
+# ------------------------------------------------------------------------------------------------
+
+class MvccSim:
+    """Tracks just enough of the set semantics to keep the script legal and interesting."""
+
+    def __init__(self, rng, tier, focus=None, mem=None, cmp=None):
+        self.rng = rng
+        self.kv = (cmp or rng.choice(('plain', 'kv'))) == 'kv'
+        self.mm = (mem or rng.choice(('go', 'go', 'mm'))) == 'mm'
+        self.nw = rng.choice((1, 1, 2, 3, 4))
+        self.nkeys = rng.choice((1, 2, 3, 5, 8, 8, 20))
+        self.live = {}        # key -> born epoch
+        self.epoch = 1
+        self.refs = []        # refs per snapshot
+        self.iters = {}       # name -> snapshot index
+        self.handles = {}     # name -> (key, epoch taken)
+        self.nit = 0
+        self.nh = 0
+        self.lines = ['cfg cmp=%s mem=%s writers=%d' % ('kv' if self.kv else 'plain', 'mm' if self.mm else 'go', self.nw)]
+        self.focus = focus
+
+    def w(self):
+        return self.rng.randrange(self.nw)
+
+    def key(self):
+        return self.rng.randrange(self.nkeys) * 3 + 1      # gaps so that seeks can miss
+
+    def anykey(self):
+        return self.rng.randrange(self.nkeys * 3 + 3)
+
+    def open_snaps(self):
+        return [i for i, r in enumerate(self.refs) if r > 0]
+
+    def op(self):
+        rng = self.rng
+        r = rng.random()
+        L = self.lines
+        f = self.focus
+        if r < 0.30:
+            k = self.key()
+            L.append('put %d %d %d' % (self.w(), k, rng.randrange(3) if self.kv else 0))
+            if k not in self.live:
+                self.live[k] = self.epoch
+        elif r < 0.50:
+            k = self.key()
+            L.append('del %d %d' % (self.w(), k))
+            self.live.pop(k, None)
+        elif r < 0.56:
+            L.append('get %d %d' % (self.w(), self.key()))
+        elif r < 0.62:
+            k = self.key()
+            self.nh += 1
+            h = 'h%d' % self.nh
+            wr = self.w()
+            L.append('getnode %d %d %s' % (wr, k, h))
+            if k in self.live:
+                if self.mm or rng.random() < 0.6:
+                    L.append('delnode %d %s' % (self.w(), h))
+                    del self.live[k]
+                    if not self.mm and rng.random() < 0.3:
+                        L.append('delnode %d %s' % (self.w(), h))     # the loser of a double delete
+                else:
+                    self.handles[h] = k
+        elif r < 0.65 and self.handles and not self.mm:
+            h = rng.choice(sorted(self.handles))
+            k = self.handles.pop(h)
+            L.append('delnode %d %s' % (self.w(), h))
+            self.live.pop(k, None)
+        elif r < 0.75:
+            L.append('snap')
+            self.refs.append(1)
+            self.epoch += 1
+            self.handles = {}
+            if rng.random() < 0.5:
+                L.append('items')
+        elif r < 0.80:
+            o = self.open_snaps()
+            if o or self.refs:
+                s = rng.choice(o) if o and rng.random() < 0.9 else rng.randrange(len(self.refs))
+                L.append('open %d' % (s + 1))
+                if self.refs[s] > 0:
+                    self.refs[s] += 1
+        elif r < 0.88:
+            o = [i for i in self.open_snaps() if self.refs[i] > sum(1 for v in self.iters.values() if v == i)]
+            if o:
+                s = rng.choice(o)
+                L.append('close %d' % (s + 1))
+                self.refs[s] -= 1
+                if rng.random() < 0.3:
+                    L.append('gcwait')
+        elif r < 0.93:
+            if self.refs:
+                o = self.open_snaps()
+                s = rng.choice(o) if o and rng.random() < 0.9 else rng.randrange(len(self.refs))
+                L.append('scan %d' % (s + 1))
+                if rng.random() < 0.3:
+                    L.append('count %d' % (s + 1))
+        elif r < 0.97:
+            self.iter_ops()
+        elif r < 0.99:
+            o = self.open_snaps()
+            if o:
+                s = rng.choice(o)
+                L.append('visit %d shards=%d conc=%d' % (s + 1, rng.choice((1, 2, 3, 4, 7, 16, 40)), rng.choice((1, 2, 3, 8))))
+        else:
+            L.append('gcwait')
+
+    def iter_ops(self):
+        rng = self.rng
+        L = self.lines
+        o = self.open_snaps()
+        if not o:
+            return
+        s = rng.choice(o)
+        self.nit += 1
+        name = 'i%d' % self.nit
+        L.append('it_new %s %d' % (name, s + 1))
+        self.refs[s] += 1
+        self.iters[name] = s
+        if rng.random() < 0.6:
+            L.append('it_rate %s %d' % (name, rng.choice((0, 1, 1, 2, 3, 5))))
+        L.append(rng.choice(['it_first %s' % name, 'it_seek %s %d' % (name, self.anykey())]))
+        for _ in range(rng.randrange(0, 12)):
+            q = rng.random()
+            if q < 0.6:
+                L.append('it_next %s' % name)
+            elif q < 0.75:
+                L.append('it_refresh %s' % name)
+            elif q < 0.85:
+                L.append('it_seek %s %d' % (name, self.anykey()))
+            elif q < 0.9:
+                L.append('it_first %s' % name)
+            else:
+                # mutate underneath the open iterator
+                k = self.key()
+                if rng.random() < 0.5:
+                    L.append('put %d %d %d' % (self.w(), k, rng.randrange(3) if self.kv else 0))
+                    self.live.setdefault(k, self.epoch)
+                else:
+                    L.append('del %d %d' % (self.w(), k))
+                    self.live.pop(k, None)
+        if rng.random() < 0.8:
+            L.append('it_close %s' % name)
+            self.refs[s] -= 1
+            del self.iters[name]
+
+    def finish(self, shutdown=True):
+        L = self.lines
+        for name in sorted(self.iters):
+            L.append('it_close %s' % name)
+            self.refs[self.iters[name]] -= 1
+        self.iters = {}
+        if self.rng.random() < 0.7:
+            L.append('snap')
+            self.refs.append(1)
+            L.append('scan %d' % len(self.refs))
+        order = self.open_snaps()
+        self.rng.shuffle(order)
+        for s in order:
+            while self.refs[s] > 0:
+                L.append('close %d' % (s + 1))
+                self.refs[s] -= 1
+        L.append('gcwait')
+        if shutdown:
+            L.append('shutdown')
+        return L
+
+
+def gen_mvcc(rng, tier, **kw):
+    sim = MvccSim(rng, tier, **kw)
+    n = rng.randrange(5, 60 if tier == 'quick' else 300)
+    for _ in range(n):
+        sim.op()
+    return sim.finish()
+
+
+def gen_mvcc_mm(rng, tier):
+    return gen_mvcc(rng, tier, mem='mm')
+
+
+def gen_mvcc_iter(rng, tier):
+    """iterator-heavy histories for C09: versions pile up on few keys, then many seeks/refreshes"""
+    sim = MvccSim(rng, tier)
+    sim.nkeys = rng.choice((1, 2, 3, 5))
+    for _ in range(rng.randrange(5, 40)):
+        r = rng.random()
+        if r < 0.7:
+            k = sim.key()
+            if rng.random() < 0.55:
+                sim.lines.append('put %d %d %d' % (sim.w(), k, rng.randrange(3) if sim.kv else 0))
+            else:
+                sim.lines.append('del %d %d' % (sim.w(), k))
+        elif r < 0.9:
+            sim.lines.append('snap')
+            sim.refs.append(1)
+        else:
+            sim.iter_ops()
+    if not sim.refs:
+        sim.lines.append('snap')
+        sim.refs.append(1)
+    for _ in range(rng.randrange(1, 6)):
+        sim.iter_ops()
+    return sim.finish()
+
+
+def gen_mvcc_visit(rng, tier):
+    sim = MvccSim(rng, tier)
+    sim.nkeys = rng.choice((1, 3, 8, 30, 100))
+    for _ in range(rng.randrange(5, 80 if tier == 'quick' else 400)):
+        r = rng.random()
+        k = sim.key()
+        if r < 0.55:
+            sim.lines.append('put %d %d %d' % (sim.w(), k, rng.randrange(3) if sim.kv else 0))
+        elif r < 0.85:
+            sim.lines.append('del %d %d' % (sim.w(), k))
+        else:
+            sim.lines.append('snap')
+            sim.refs.append(1)
+    sim.lines.append('snap')
+    sim.refs.append(1)
+    for _ in range(rng.randrange(1, 5)):
+        s = rng.choice(sim.open_snaps())
+        line = 'visit %d shards=%d conc=%d' % (s + 1, rng.choice((1, 2, 3, 4, 7, 16, 40, 200)), rng.choice((1, 2, 3, 8)))
+        if rng.random() < 0.2:
+            line += ' failkey=%d' % sim.key()
+        sim.lines.append(line)
+        sim.lines.append('scan %d' % (s + 1))
+    return sim.finish()
+
+
+# ------------------------------------------------------------------------------------------------
+# access barrier: steered schedules, chosen interactively from the implementation's answers
+# ------------------------------------------------------------------------------------------------
+
+def gen_barrier(rng, tier, sess, nthreads=None, steps=None):
+    n = nthreads or rng.choice((2, 3, 3, 4, 5))
+    sess.send('threads %d' % n)
+    busy = [False] * n          # a call is in progress
+    point = [''] * n
+    ntok = [0] * n
+    mutex = -1
+    nobj = 0
+    stick = rng.random()        # probability to keep running the same thread
+    last = 0
+    budget = steps or rng.randrange(20, 150 if tier == 'quick' else 600)
+
+    def handle(t, o):
+        nonlocal mutex
+        if o.startswith('at '):
+            busy[t] = True
+            point[t] = o[3:]
+        elif o in ('ret', 'panic'):
+            busy[t] = False
+            point[t] = ''
+            if mutex == t:
+                mutex = -1
+
+    def start(t, kind):
+        nonlocal nobj
+        if kind == 'acquire':
+            o = sess.send('start %d acquire' % t)
+            pending[t] = 'acquire'
+        elif kind == 'release':
+            i = rng.randrange(ntok[t])
+            o = sess.send('start %d release %d' % (t, i))
+            ntok[t] -= 1
+            pending[t] = 'release'
+        else:
+            nobj += 1
+            o = sess.send('start %d flush %d' % (t, nobj))
+            pending[t] = 'flush'
+        handle(t, o)
+
+    def step(t):
+        nonlocal mutex
+        if point[t] == 'FL_LOCK':
+            if mutex != -1:
+                if rng.random() < 0.1:
+                    sess.send('step %d' % t)      # expect: blocked
+                return False
+            mutex = t
+        o = sess.send('step %d' % t)
+        handle(t, o)
+        if o == 'ret' and pending[t] == 'acquire':
+            ntok[t] += 1
+        return True
+
+    pending = [''] * n
+    for _ in range(budget):
+        t = last if rng.random() < stick else rng.randrange(n)
+        last = t
+        if busy[t]:
+            step(t)
+        else:
+            r = rng.random()
+            if r < 0.45 and ntok[t] < 3:
+                start(t, 'acquire')
+            elif r < 0.8 and ntok[t] > 0:
+                start(t, 'release')
+            elif r < 0.95:
+                start(t, 'flush')
+            else:
+                sess.send(rng.choice(('log', 'stats', 'enabled %d' % t)))
+    # drain: finish every call, release every token, finish again
+    for _round in range(3):
+        guard = 0
+        while any(busy) and guard < 100000:
+            guard += 1
+            ts = [t for t in range(n) if busy[t] and not (point[t] == 'FL_LOCK' and mutex != -1)]
+            if not ts:
+                break
+            step(rng.choice(ts))
+        for t in range(n):
+            while not busy[t] and ntok[t] > 0:
+                start(t, 'release')
+                while busy[t]:
+                    if not step(t):
+                        break
+    sess.send('log')
+    sess.send('stats')
